@@ -1,10 +1,17 @@
-(** C11 - Entity events are complete and truthful (level: partial).  Proved on the model:
-    the content of the exchange event (added / removed = the set differences of the old and
-    new component sets, old relation and target from the old table, the six type bits), no
-    event without listener, no event from a panicking operation.  Event streams of whole
-    histories (one event per change, batch = singles, delivery timing) are decided by the
-    correspondence run, which compares every operation's event list with the model's. *)
-From Arche Require Import Model.Base Model.World Model.Ops Proofs.Misc Proofs.Atomic Proofs.Bits.
+(** C11 - Entity events are complete and truthful.  Proved on the model, with a listener
+    subscribed to everything, on every world satisfying the invariants (any registry,
+    relation tables): a successful Add/Remove/Exchange (with or without relation argument)
+    emits EXACTLY ONE event whose added / removed masks are the differences of the entity's
+    component sets before and after, whose old / new relation and old target are those
+    before and after, whose type bits name exactly the kinds of change, delivered after the
+    change with the world unlocked ([C11_exchange_event_exact]); replaying it on the old
+    component set gives the new one ([C11_replay]); creation emits one event with the full
+    mask, Relations.Set one TargetChanged event unless the target is unchanged (then none),
+    removal one event BEFORE the removal with the world locked; no event without listener,
+    none from a panicking call.  Batch event lists and whole-history streams: correspondence
+    run (every operation's event list is compared with the model's). *)
+From Arche Require Import Model.Base Model.World Model.Ops Proofs.Misc Proofs.Atomic Proofs.Bits
+  Proofs.Store Proofs.WorldInv Proofs.RelGraph Proofs.RelWorld Proofs.RelRefine Proofs.EventsExact.
 
 Theorem C11_added_removed_are_differences : forall old new i,
   bit (N.land new (N.lxor old new)) i = bit new i && negb (bit old i) /\
@@ -25,4 +32,52 @@ Proof. exact ev_exchange_exact. Qed.
 Theorem C11_no_event_from_failed_call : forall w o w' evs, step w o = (w', Panic, evs) -> w' = w /\ evs = [].
 Proof. exact panic_atomic. Qed.
 
+
+Theorem C11_exchange_event_exact : forall w live e add rem rel w' x,
+  world_okr w live -> e ∈ live -> Forall (fun id => id < length (w_reg w)) add ->
+  w_listener w = Some lall ->
+  exchange_nn w e add rem rel = Some (w', Some x) ->
+  exists om nm orl nrl ot nt,
+    ent_mask w e = Some om /\ ent_mask w' e = Some nm /\ ent_rel w e = Some orl /\ ent_rel w' e = Some nrl /\
+    ent_target w e = Some ot /\ ent_target w' e = Some nt /\
+    ev_exchange w' e x add rem =
+      [mkEv e (N.land nm (N.lxor om nm)) (N.land om (N.lxor om nm)) add rem orl nrl ot (xbits add rem orl nrl ot nt) false 0].
+Proof. exact exchange_event_exact. Qed.
+
+Theorem C11_type_bits : forall add rem orl nrl ot nt,
+  let b := xbits add rem orl nrl ot nt in
+  N.testbit b 0 = false /\ N.testbit b 1 = false /\
+  N.testbit b 2 = negb (bool_decide (add = [])) /\ N.testbit b 3 = negb (bool_decide (rem = [])) /\
+  N.testbit b 4 = opt_ne orl nrl /\ N.testbit b 5 = (opt_ne orl nrl || negb (ent_eqb ot nt)).
+Proof. exact xbits_spec. Qed.
+
+Theorem C11_replay : forall om nm,
+  N.ldiff (N.lor om (N.land nm (N.lxor om nm))) (N.land om (N.lxor om nm)) = nm.
+Proof. exact replay_masks. Qed.
+
+Theorem C11_creation_event : forall w live issued ids w' e evs,
+  world_okr2 w live issued -> Forall (fun id => id < length (w_reg w)) ids -> w_listener w = Some lall ->
+  op_new w ids [] = (w', Ok (VEnt e), evs) ->
+  exists m r, ent_mask w' e = Some m /\ ent_rel w' e = Some r /\
+    evs = [mkEv e m 0 ids [] None r ezero
+             (subscription true false (negb (bool_decide (ids = []))) false (bool_decide (is_Some r)) (bool_decide (is_Some r))) false 0].
+Proof. exact new_event_exact. Qed.
+
+Theorem C11_target_event : forall w live e rid target w' evs,
+  world_okr w live -> e ∈ live -> w_listener w = Some lall ->
+  op_set_relation w e rid target = (w', Ok VUnit, evs) ->
+  exists ot, ent_target w e = Some ot /\ ent_target w' e = Some target /\
+    evs = if ent_eqb ot target then [] else [mkEv e 0 0 [] [] (Some rid) (Some rid) ot 32 false 0].
+Proof. exact target_event_exact. Qed.
+
+Theorem C11_removal_event : forall w live e,
+  world_okr w live -> e ∈ live -> chk_alive w e = Some true -> is_locked w = false -> w_listener w = Some lall ->
+  exists m r tg, ent_mask w e = Some m /\ ent_rel w e = Some r /\ ent_target w e = Some tg /\
+    snd (op_remove_entity w e) =
+      [mkEv e 0 m [] (mask_ids (w_tb w) m) r None tg
+            (subscription false true false (negb (bool_decide (mask_ids (w_tb w) m = []))) (bool_decide (is_Some r)) (bool_decide (is_Some r))) true 0].
+Proof. exact remove_event_exact. Qed.
+
 Print Assumptions C11_exchange_event.
+Print Assumptions C11_exchange_event_exact.
+Print Assumptions C11_removal_event.
